@@ -32,12 +32,13 @@ var knownSignatures = map[string]func(src string) bool{
 	"C20-F2": sigTabInToken,
 }
 
-// sigTabInToken (C20-F2): a tab character inside a comment or a string literal.
+// sigTabInToken (C20-F2): a character the tabwriter interprets (tab, vertical tab, form feed)
+// inside a comment or a string literal.
 func sigTabInToken(src string) bool {
 	for _, tok := range scanTokens(src) {
 		switch tok.Type {
 		case token.COMMENT, token.DOCUMENT, token.STRING, token.RAW_STRING:
-			if strings.ContainsRune(tok.Text, '\t') {
+			if strings.ContainsAny(tok.Text, "\t\v\f") {
 				return true
 			}
 		}
